@@ -195,19 +195,21 @@ func (e *Engine) runScripts(obls []*Obligation, dir string, timeoutS int, pool c
 			if o.Cover && tmo > 6 {
 				tmo = 6
 			}
-			var absCh chan solveResult
+			// the abstraction variant (if any) is tried first with a short budget:
+			// where it applies it answers at once
+			var r solveResult
+			doneAbs := false
 			if o.scriptAbs != "" {
 				fa := filepath.Join(dir, name+".abs.smt2")
 				os.WriteFile(fa, []byte("; abstraction variant of "+o.ID+"\n"+o.scriptAbs), 0o644)
-				absCh = make(chan solveResult, 1)
-				go func() { absCh <- runPortfolio(fa, tmo, false) }()
-			}
-			r := runPortfolio(f, tmo, needAll && !o.Cover)
-			if absCh != nil {
-				ra := <-absCh
-				if r.status != "unsat" && r.status != "sat" && ra.status == "unsat" {
-					r.status, r.solver, r.secs = "unsat", ra.solver+"(abs)", ra.secs
+				ra := runPortfolio(fa, 6, false)
+				if ra.status == "unsat" {
+					r = solveResult{status: "unsat", solver: ra.solver + "(abs)", secs: ra.secs, all: ra.all}
+					doneAbs = true
 				}
+			}
+			if !doneAbs {
+				r = runPortfolio(f, tmo, needAll && !o.Cover)
 			}
 			if r.status != "unsat" && r.status != "sat" && o.scriptQF != "" {
 				f2 := filepath.Join(dir, name+".qf.smt2")
